@@ -374,8 +374,20 @@ func TestC19(t *testing.T) {
 				c.Entries = append(c.Entries, c19Entry("good", name, i%50, i, nil))
 			}
 		}
+		var family []string
+		if rapid.IntRange(0, 5).Draw(t, "nameFamily") == 0 {
+			// names that derive from one stem: the bare stem, numbered copies with suffixes of different length, backups
+			stem := rapid.SampledFrom([]string{"feed", "gtfs.pb", "a", "2024-01-01"}).Draw(t, "stem")
+			for _, sfx := range []string{"", ".1", ".2", ".9", ".10", ".100", "-x", ".bak", "2", "10", " (1)", ".01", "~"} {
+				family = append(family, stem+sfx)
+			}
+			family = rapid.Permutation(family).Draw(t, "familyOrder")
+		}
 		for i := 0; i < n; i++ {
 			name := fmt.Sprintf(rapid.SampledFrom(c19NameShapes).Draw(t, "nameShape"), rapid.IntRange(0, 12).Draw(t, "nameN"))
+			if i < len(family) {
+				name = family[i]
+			}
 			if used[name] {
 				name = fmt.Sprintf("%s-%d", name, i)
 			}
